@@ -151,7 +151,14 @@ def run_check(prop, tag):
     if tag not in PLAYBACK_FOR:
         env["VERIF_RUSTGEN_NO_PLAYBACK"] = "1"
     t0 = time.time()
+    before = set(os.listdir("/verif/replays")) if os.path.isdir("/verif/replays") else set()
     p = sh(["/verif/check", prop], env=env)
+    # replays of MUTANTS do not belong into /verif/replays: move what this run wrote next to its output
+    if tag != "baseline" and os.path.isdir("/verif/replays"):
+        dst = os.path.join(OUT, "replays_" + tag)
+        os.makedirs(dst, exist_ok=True)
+        for f in set(os.listdir("/verif/replays")) - before:
+            os.replace(os.path.join("/verif/replays", f), os.path.join(dst, f))
     with open(os.path.join(OUT, "%s_%s.out" % (tag, prop)), "w") as f:
         f.write(p.stdout)
     roles = re.findall(r"^\s*role=(\S.*)$", p.stdout, re.M)
